@@ -75,6 +75,9 @@ class FakeProcLocalBackend(LocalBackend):
         self.npolls = 0
         self.calls = []         # record of backend-level operations, in order
         self.mid_world = {}     # trial_id -> world events to happen BETWEEN the two reads of this poll
+        self.post_world = []    # world events to happen after this poll, before busy_trial_ids is asked
+        self.unobserved_exit = False   # some worker exited at a moment other than "before a poll reads"
+        self._exited = []
         self._in_poll = False
         self._read_once = set()
         self.mid_fired = []
@@ -86,10 +89,16 @@ class FakeProcLocalBackend(LocalBackend):
         shutil.rmtree(self._tmp, ignore_errors=True)
 
     # ---- world -------------------------------------------------------------
+    NOISE = {1: "step 12/50 loss=0.25 ", 2: "\x1b[2K> ", 5: "warning: something\nprogress 40% "}
+
     def _write(self, trial_id, reports):
+        """a training script also prints other text; some of it is not terminated by a newline
+        (print(..., end=""), progress bars), so that a report does not start its line"""
         with open(self.trial_path(trial_id) / "std.out", "a") as f:
             for r in reports:
-                f.write("[%s]: %s\n" % (ST_SAGEMAKER_METRIC_TAG, json.dumps(r)))
+                f.write(self.NOISE.get(r["v"] % 7, "") + "[%s]: %s\n" % (ST_SAGEMAKER_METRIC_TAG, json.dumps(r)))
+                if r["v"] % 7 == 3:
+                    f.write("epoch finished\n")
 
     def emit(self, trial_id, k):
         w = self.w.get(trial_id)
@@ -105,6 +114,8 @@ class FakeProcLocalBackend(LocalBackend):
         self._write(trial_id, w.todo)
         w.todo = []
         w.proc = EXIT_OK
+        self.unobserved_exit = True
+        self._exited.append(trial_id)
 
     def fail(self, trial_id, k):
         w = self.w.get(trial_id)
@@ -112,6 +123,7 @@ class FakeProcLocalBackend(LocalBackend):
             return
         self.emit(trial_id, k)
         w.proc = EXIT_FAIL
+        self.unobserved_exit = True
 
     def apply_world(self, evs):
         for kind, tid, k in evs:
@@ -122,6 +134,12 @@ class FakeProcLocalBackend(LocalBackend):
             elif kind == "fail":
                 self.fail(tid, k)
             self.calls.append((kind, tid, k))
+            self._flush_exits()
+
+    def _flush_exits(self):
+        for tid in self._exited:
+            self.calls.append(("exit_ok", tid))
+        self._exited = []
 
     def _kill_after(self, trial_id):
         late, self.next_late = self.next_late, 0
@@ -180,8 +198,12 @@ class FakeProcLocalBackend(LocalBackend):
 
     # ---- recording wrappers (call the real implementation) -------------------
     def fetch_status_results(self, trial_ids, mid=None):
+        self._apply_post()      # not consumed by busy_trial_ids: happens before this poll reads
         evs = list(self.world_fn(self)) if self.world_fn is not None else []
-        self.apply_world([e for e in evs if not e[0].startswith("mid_")])
+        self.unobserved_exit_save = self.unobserved_exit
+        self.apply_world([e for e in evs if not e[0].startswith(("mid_", "post_"))])
+        self.unobserved_exit = self.unobserved_exit_save   # an exit before the poll reads is observed by it
+        self.post_world = [(e[0][5:], e[1], e[2]) for e in evs if e[0].startswith("post_")]
         self.mid_world = {}
         for kind, tid, k in [e for e in evs if e[0].startswith("mid_")] + list(mid or []):
             self.mid_world.setdefault(tid, []).append((kind, k))
@@ -194,8 +216,19 @@ class FakeProcLocalBackend(LocalBackend):
             self._in_poll = False
         self.calls.append(("poll", ids, [(i, r["v"]) for i, r in res], {i: s for i, (_, s) in st.items()},
                            list(self.mid_fired)))
+        self._flush_exits()
         self.mid_world = {}     # events for trials that were not read in this poll do not happen
         return st, res
+
+    def _apply_post(self):
+        evs, self.post_world = self.post_world, []
+        if evs:
+            self.apply_world(evs)
+
+    def busy_trial_ids(self):
+        # the moment between fetch_status_results and busy_trial_ids of one tuner iteration
+        self._apply_post()
+        return super().busy_trial_ids()
 
     def start_trial(self, config, checkpoint_trial_id=None):
         reports = list(self.next_run[0])
